@@ -15,6 +15,7 @@ import gen as G
 
 TOL = 1.5e-8          # Tolerance<>::from_default().rel (double)
 MARGIN = 1e-6         # probes keep this distance from every surface (>> 10 * tol * scale)
+MARGIN_SNAP = 3e-7    # "snap" units are small (extent <= 3): 10 * tol = 1.5e-7, tol * scale <= 5e-8
 PRE = ("From Coq Require Import ZArith List Floats String.\n"
        "From Celer Require Import Base.Num Base.NumF Base.Vec3 C12.Surfaces C12.Transforms C09.Shapes C09.Pipeline.\n"
        "Import ListNotations.\nOpen Scope float_scope.\nOpen Scope string_scope.\n")
@@ -162,6 +163,191 @@ def gen_unit(r, ids, level, R, depth):
     return u, brad
 
 
+def snap_delta(r):
+    """offset at the scales where simplification / soft de-duplication decide"""
+    rt = math.sqrt(TOL)
+    return r.choice([0.3 * TOL, 0.9 * TOL, 1.1 * TOL, 3 * TOL, 10 * TOL, 30 * TOL, 100 * TOL,
+                     rt / 10, rt / 3, 0.9 * rt, 1.1 * rt, 3 * rt,
+                     10 ** r.uniform(-9, -3), 10 ** r.uniform(-9, -3), 10 ** r.uniform(-6, -4)])
+
+
+def unit_vec(r, kind=None):
+    kind = kind or r.choice(["axis", "axis", "plane", "any"])
+    if kind == "axis":
+        v = [0.0, 0.0, 0.0]
+        v[r.randrange(3)] = r.choice([-1.0, 1.0])
+        return v
+    v = [r.gauss(0, 1) for _ in range(3)]
+    if kind == "plane":
+        v[r.randrange(3)] = 0.0
+    n = math.sqrt(sum(x * x for x in v)) or 1.0
+    return [x / n for x in v]
+
+
+def snap_tf(r):
+    """tiny translation / tiny rotation, optionally after quarter turns"""
+    d = snap_delta(r)
+    c = r.random()
+    m = G.IDM
+    kind = "tl"
+    if c < 0.35:
+        for _ in range(r.choice([1, 2])):
+            m = G.matmul(G.rot_axis(r.randrange(3), r.choice([0.25, 0.5, 0.75])), m)
+        kind = "tf"
+    elif c < 0.55:
+        m = G.rot_axis(r.randrange(3), d / (2 * math.pi))     # rotation by the angle d
+        kind = "tf"
+        d = r.choice([0.0, snap_delta(r)])
+    u = unit_vec(r)
+    t = [d * x for x in u]
+    if r.random() < 0.3:          # plus a large component along one axis
+        t[r.randrange(3)] += r.uniform(-2, 2)
+    return (m, t, kind)
+
+
+def gen_snap_unit(r, ids):
+    """one small solid placed a tiny distance d from where a "snap to a simpler surface" rule
+    (cylinder axis / sphere centre / cone apex on a coordinate axis, plane through the origin,
+    axis-aligned plane normal) or soft de-duplication (two nearly coincident surfaces) would put
+    it; probe points are aimed INTO the sliver between the exact and the snapped surface."""
+    label = "u%d" % ids[0]
+    ids[0] += 1
+    d = snap_delta(r)
+    rule = r.choice(["cyl", "cyl", "cyl", "sphere", "cone", "plane", "rot", "twin", "twin"])
+    boundary = ("def", "bnd", ("prim", dict(k="box", p=[4.0, 4.0, 4.0], bb=[4.0] * 3)))
+    hints = []
+    mats = []
+    axes3 = [[1.0, 0.0, 0.0], [0.0, 1.0, 0.0], [0.0, 0.0, 1.0]]
+
+    def radial_hints(centre, R, axis, rad, zr, shift):
+        """points half-way between the surface of radius rad about centre (+axis) and the same
+        surface displaced by `shift`"""
+        a = matcol(R, 2) if axis else None
+        for _ in range(14):
+            if axis:
+                # unit vector perpendicular to the axis, biased towards +-shift
+                w = [shift[i] - sum(shift[k] * a[k] for k in range(3)) * a[i] for i in range(3)]
+                nw = math.sqrt(sum(x * x for x in w))
+                if nw < 1e-300 or r.random() < 0.3:
+                    w = unit_vec(r, "any")
+                    w = [w[i] - sum(w[k] * a[k] for k in range(3)) * a[i] for i in range(3)]
+                    nw = math.sqrt(sum(x * x for x in w)) or 1.0
+                n = [r.choice([-1, 1]) * x / nw for x in w]
+                z = r.uniform(-zr, zr)
+                c = [centre[i] + rad(z) * n[i] + z * a[i] for i in range(3)]
+            else:
+                ns = math.sqrt(sum(x * x for x in shift))
+                n = [x / ns for x in shift] if ns > 1e-300 and r.random() < 0.7 else unit_vec(r, "any")
+                sg = r.choice([-1, 1])
+                n = [sg * x for x in n]
+                c = [centre[i] + rad(0) * n[i] for i in range(3)]
+            sn = sum(shift[i] * n[i] for i in range(3))
+            f = r.uniform(0.3, 0.7)
+            hints.append([c[i] + f * sn * n[i] for i in range(3)])
+
+    def matcol(R, j):
+        return [R[i][j] for i in range(3)]
+
+    R = G.IDM
+    if r.random() < 0.5:
+        R = G.rot_axis(r.choice([0, 1]), r.choice([0.25, 0.75]))        # z axis -> y or x
+    if rule in ("cyl", "cone", "sphere"):
+        u = unit_vec(r, "axis" if r.random() < 0.6 else "any")
+        if rule != "sphere":
+            a = matcol(R, 2)
+            if abs(sum(u[i] * a[i] for i in range(3))) > 0.9:           # offset must not be along the axis
+                u = matcol(R, 0)
+        shift = [d * x for x in u]
+        along = [0.0, 0.0, 0.0]
+        if rule != "sphere" and r.random() < 0.4:
+            a = matcol(R, 2)
+            along = [r.uniform(-1, 1) * x for x in a]
+        t = [shift[i] + along[i] for i in range(3)]
+        tr = (R, t, "tl" if R is G.IDM else "tf")
+        if rule == "sphere":
+            rad = r.uniform(0.5, 1.5)
+            o = ("prim", dict(k="sphere", p=[rad], bb=[rad] * 3))
+            radial_hints(t, R, False, lambda z: rad, 0, shift)
+        elif rule == "cyl":
+            rad, hh = r.uniform(0.4, 1.2), r.uniform(0.5, 1.2)
+            c = r.random()
+            if c < 0.5:
+                o = ("prim", dict(k="cyl", p=[rad, hh], bb=[rad, rad, hh]))
+            elif c < 0.75:
+                pi = dict(k="cyl", p=[rad, hh], bb=[rad, rad, hh])
+                o = ("solid", pi, dict(k="cyl", p=[rad * 0.5, hh], bb=[rad, rad, hh]), None)
+            else:   # polycone whose first segment has equal radii (built as a cylinder)
+                o = ("polycone", [-hh, 0.0, hh], [rad, rad, rad * 0.7], None, None, False)
+            radial_hints(t, R, True, lambda z: rad, hh * 0.45, shift)
+        else:
+            lo, hi, hh = r.uniform(0.4, 1.2), r.uniform(0.4, 1.2), r.uniform(0.5, 1.2)
+            if abs(lo - hi) < 0.1:
+                hi = lo + 0.3
+            o = ("prim", dict(k="cone", p=[lo, hi, hh], bb=[max(lo, hi)] * 2 + [hh]))
+            radial_hints(t, R, True, lambda z: lo + (hi - lo) * (z + hh) / (2 * hh), hh * 0.9, shift)
+        mats.append((label + ".m0", ("trans", tr, o)))
+    elif rule == "plane":
+        # a box face at distance d from a coordinate plane through the unit's origin
+        h = [r.uniform(0.4, 1.2) for _ in range(3)]
+        ax = r.randrange(3)
+        sg = r.choice([-1.0, 1.0])
+        t = [0.0, 0.0, 0.0]
+        t[ax] = sg * (h[ax] + d)
+        mats.append((label + ".m0", ("trans", (G.IDM, t, "tl"), ("prim", dict(k="box", p=h, bb=h)))))
+        for _ in range(12):
+            p = [r.uniform(-0.9, 0.9) * h[i] for i in range(3)]
+            p[ax] = sg * d * r.uniform(0.3, 0.7)
+            hints.append(p)
+    elif rule == "rot":
+        # a box rotated by the tiny angle d: its face normals have components ~ d
+        h = [r.uniform(0.6, 1.5) for _ in range(3)]
+        ax = r.randrange(3)
+        tr = (G.rot_axis(ax, d / (2 * math.pi)), [0.0, 0.0, 0.0], "tf")
+        mats.append((label + ".m0", ("trans", tr, ("prim", dict(k="box", p=h, bb=h)))))
+        for _ in range(14):
+            loc = [r.uniform(-0.95, 0.95) * h[i] for i in range(3)]
+            fa = r.choice([i for i in range(3) if i != ax])
+            loc[fa] = r.choice([-1, 1]) * h[fa]
+            g = G.tf_apply(tr, loc)             # on the rotated face; half-way to the unrotated one
+            f = r.uniform(0.3, 0.7)
+            hints.append([loc[i] + f * (g[i] - loc[i]) for i in range(3)])
+    else:
+        # twins: two equal curved surfaces d apart, away from the origin (soft de-duplication)
+        P = [r.uniform(-1.5, 1.5) for _ in range(3)]
+        u = unit_vec(r)
+        kind = r.choice(["sphere", "cyl", "cone"])
+        if kind != "sphere":
+            a = matcol(R, 2)
+            if abs(sum(u[i] * a[i] for i in range(3))) > 0.9:
+                u = matcol(R, 0)
+        shift = [d * x for x in u]
+        if kind == "sphere":
+            rad = r.uniform(0.4, 1.0)
+            mk = lambda: ("prim", dict(k="sphere", p=[rad], bb=[rad] * 3))
+            radial_hints(P, R, False, lambda z: rad, 0, shift)
+        elif kind == "cyl":
+            rad, hh = r.uniform(0.3, 0.9), r.uniform(0.4, 0.9)
+            mk = lambda: ("prim", dict(k="cyl", p=[rad, hh], bb=[rad, rad, hh]))
+            radial_hints(P, R, True, lambda z: rad, hh * 0.9, shift)
+        else:
+            lo, hi, hh = r.uniform(0.3, 0.9), r.uniform(0.3, 0.9), r.uniform(0.4, 0.9)
+            if abs(lo - hi) < 0.1:
+                hi = lo + 0.3
+            mk = lambda: ("prim", dict(k="cone", p=[lo, hi, hh], bb=[max(lo, hi)] * 2 + [hh]))
+            radial_hints(P, R, True, lambda z: lo + (hi - lo) * (z + hh) / (2 * hh), hh * 0.9, shift)
+        kd = "tl" if R is G.IDM else "tf"
+        a_ = ("trans", (R, P, kd), mk())
+        b_ = ("trans", (R, [P[i] + shift[i] for i in range(3)], kd), mk())
+        mats.append((label + ".m0", a_))
+        mats.append((label + ".m1", ("all", [("prim", dict(k="box", p=[3.0, 3.0, 3.0], bb=[3.0] * 3)),
+                                             ("neg", b_), ("neg", a_)])))
+    u_ = new_unit(label, boundary, "media", [], mats, True)
+    if r.random() < 0.3:
+        u_["background"] = False
+        u_["materials"].append((label + ".rest", ("all", [("bound",)] + [("neg", o_) for _, o_ in mats])))
+    return u_, hints
+
+
 def gen_gap_unit(r, ids):
     """two boxes / cylinders separated by a small gap (near-coincident
     surfaces: soft de-duplication must not merge surfaces farther apart than
@@ -271,6 +457,8 @@ def parse_harness(out):
             continue
         elif tok[0] == "error":
             cur["error"] = ln[6:]
+        elif tok[0] == "prim-error":
+            cur["prims"].append(dict(error=ln[11:]))
         elif tok[0] == "prim":
             n = int(tok[2])
             surfs = []
@@ -392,13 +580,28 @@ def run(ctx):
     for p in prims:
         inp.append("prim " + G.prim_text(p))
     inp.append("endcase")
+    # the same primitives built under a transform: offsets at the scales where the simplifier's
+    # "snap to a simpler surface" rules decide (k*tol, sqrt(tol), log-uniform 1e-9..1e-3), tiny
+    # rotations, quarter turns, and general rotations / reflections
+    tprims = [(i, snap_tf(r) if i % 3 else G.rand_tf(r, 3.0)) for i in range(len(prims))]
+    inp.append("case tprims")
+    for i, tr in tprims:
+        inp.append("primt %s %s" % (G.tf_text(tr), G.prim_text(prims[i])))
+    inp.append("endcase")
     trees = []
     corpus = corpus_trees()
-    for ti in range(n_trees + len(corpus)):
+    n_snap = int(os.environ.get("C09_SNAP", 60 if quick else 900))
+    for ti in range(n_trees + len(corpus) + n_snap):
         ids = [0]
         hints = []
+        margin = MARGIN
+        npts = n_probe
         if ti < len(corpus):
             top, hints = corpus[ti]
+        elif ti >= n_trees + len(corpus):
+            top, hints = gen_snap_unit(r, ids)
+            margin = MARGIN_SNAP
+            npts = len(hints) + 16
         elif ti % 12 == 11:
             top, hints = gen_gap_unit(r, ids)
         else:
@@ -406,8 +609,8 @@ def run(ctx):
         resolve_unit(top)
         pl = unit_placements(top)
         pts = list(hints)
-        ext = 11.5
-        while len(pts) < n_probe:
+        ext = 11.5 if margin == MARGIN else 4.5
+        while len(pts) < npts:
             if r.random() < 0.3 or not pl:
                 pts.append([r.uniform(-ext, ext) for _ in range(3)])
             else:
@@ -420,7 +623,7 @@ def run(ctx):
         lines.append("probes %d" % len(pts))
         lines += [" ".join(float(x).hex() for x in p) for p in pts]
         lines.append("endcase")
-        trees.append(dict(top=top, pts=pts, text="\n".join(lines)))
+        trees.append(dict(top=top, pts=pts, text="\n".join(lines), margin=margin))
         inp.append(trees[-1]["text"])
     ctx.log("generated %d primitives, %d trees" % (len(prims), len(trees)))
     rc, out = ctx.run_harness(exe, input="\n".join(inp) + "\n", timeout=1500)
@@ -434,10 +637,50 @@ def run(ctx):
     mvals = ctx.coq_eval("prims", PRE, exprs, chunk=max(20, len(exprs) // 4 + 1))
     hp = hres["prims"]
     ctx.log("model surfaces evaluated")
-    if hp["error"] or len(hp["prims"]) != len(prims):
-        ctx.violation("construction-error", "a valid primitive was rejected: %s" % hp["error"],
-                      {"error": hp["error"], "n_done": len(hp["prims"]),
-                       "primitive": G.prim_text(prims[min(len(hp["prims"]), len(prims) - 1)])})
+    htp = hres["tprims"]
+    if hp["error"] or len(hp["prims"]) != len(prims) or htp["error"] or len(htp["prims"]) != len(tprims):
+        raise vlib.BuildError("probe harness: primitive cases incomplete", (hp["error"] or "") + (htp["error"] or ""))
+    # primitives the real constructors rejected: fine when it is a documented validation of a shape the
+    # generator should not have made, a violation otherwise
+    nrej = 0
+    for lst, items in ((hp["prims"], prims), (htp["prims"], [prims[i] for i, _ in tprims])):
+        for hv, p in zip(lst, items):
+            if "error" in hv:
+                if classify_error(hv["error"]) is None:
+                    nrej += 1
+                    if nrej <= 3:
+                        ctx.violation("construction-error", "a valid primitive was rejected: %s" % hv["error"],
+                                      {"error": hv["error"], "primitive": G.prim_text(p)})
+                else:
+                    ctx.count("prim-rejected:" + classify_error(hv["error"]))
+    # ---- transformed differential (before filtering, indices refer to the full list)
+    nbad = 0
+    for (i, tr), hv in zip(tprims, htp["prims"]):
+        p = prims[i]
+        if "error" in hv or "error" in hp["prims"][i]:
+            continue
+        ctx.case(("tprim", G.prim_text(p), G.tf_text(tr)), nontrivial=True)
+        ctx.count("tprim:" + tr[2])
+        impl = []
+        for sin, kind, data in hv["surfs"]:
+            gq = to_gq(kind, data)
+            impl.append(None if gq is None else norm_signed(sin, gq))
+        model = [norm_signed(sn["c"] == "BIn", G.gq_transform(c, tr)) for sn, c in mvals[i]]
+        agree = len(impl) == len(model) and all(a is not None and close(a, b, rtol=1e-7, atol=1e-7) for a, b in zip(impl, model))
+        if not agree:
+            nbad += 1
+            if nbad <= 4:
+                ctx.violation("correspondence",
+                              "surfaces emitted by %s::build under a transform differ from the model's transformed surfaces_of" % p["k"],
+                              {"primitive": G.prim_text(p), "transform": G.tf_text(tr), "impl_surfaces": hv["surfs"],
+                               "impl_normalised": impl, "model_normalised": model,
+                               "harness_input": "case c\nprimt %s %s\nendcase\n" % (G.tf_text(tr), G.prim_text(p)),
+                               "note": "general-quadric coefficients (a b c d e f g h i j) in the parent frame, negative = inside, max |coef| = 1"},
+                              no_input=True)
+    keep = [i for i, hv in enumerate(hp["prims"]) if "error" not in hv]
+    prims = [prims[i] for i in keep]
+    mvals = [mvals[i] for i in keep]
+    hp["prims"] = [hp["prims"][i] for i in keep]
     nbad = 0
     for p, hv, mv in zip(prims, hp["prims"], mvals):
         ctx.count("prim:" + p["k"])
@@ -546,7 +789,7 @@ def run(ctx):
     exprs = []
     for t in trees:
         pts = "[" + "; ".join("V3 %s %s %s" % tuple(hexf(x) for x in p) for p in t["pts"]) + "]"
-        exprs.append("map (probe 6 %s %s %s) %s" % (hexf(TOL), hexf(MARGIN), unit_coq(t["top"]), pts))
+        exprs.append("map (probe 6 %s %s %s) %s" % (hexf(TOL), hexf(t["margin"]), unit_coq(t["top"]), pts))
     mres = ctx.coq_eval("trees", PRE, exprs, chunk=max(1, len(exprs) // 10 + 1), timeout=1500)
     ctx.log("model probes evaluated")
     nviol = 0
@@ -643,6 +886,10 @@ def classify_error(err):
     for key in ("not implemented", "Not implemented", "not yet implemented"):
         if key in err:
             return "not-implemented"
+    # GenPrism constructor validations of shapes the generator may produce by accident
+    for key in ("twist angle", "is not convex", "different orientations", "both degenerate"):
+        if key in err:
+            return "generator-invalid-genprism"
     return None
 
 
